@@ -2768,7 +2768,10 @@ send_evrrul(int whither, echs_const_evstrm_t s)
 			} else {
 				cand = this[i].cch[this[i].rdi];
 			}
-			if (echs_instant_lt_p(cand, e.from)) {
+			if (UNLIKELY(echs_nul_instant_p(cand))) {
+				/* this one's finished */
+				continue;
+			} else if (echs_instant_lt_p(cand, e.from)) {
 				e.from = cand;
 			} else if (echs_nul_instant_p(e.from)) {
 				e.from = cand;
